@@ -197,9 +197,15 @@ def run_lines(exe_argv, lines, timeout=1800, shards=1, env=None):
         return []
     shards = max(1, min(shards, len(lines)))
     if shards == 1:
+        def big_stack():
+            import resource
+            try:
+                resource.setrlimit(resource.RLIMIT_STACK, (resource.RLIM_INFINITY, resource.RLIM_INFINITY))
+            except (ValueError, OSError):
+                pass
         p = subprocess.run(exe_argv, input="\n".join(lines) + "\n", stdout=subprocess.PIPE,
                            stderr=subprocess.PIPE, universal_newlines=True, errors="replace",
-                           timeout=timeout, env=env)
+                           timeout=timeout, env=env, preexec_fn=big_stack)
         out = p.stdout.split("\n")
         if out and out[-1] == "":
             out.pop()
